@@ -1,5 +1,5 @@
 // C12: SIMD evaluation vs default scalar evaluation of the SAME nmtools call (differential kernels).
-// One source, compiled once per SIMD context and part: -DC12_CTX=<n> -DC12_PART=<1 element-wise | 2 outer | 3 reductions> -DKSUFFIX=_<ctx>
+// One source, compiled once per SIMD context and part: -DC12_CTX=<n> -DC12_PART=<1 element-wise | 2 outer | 3 reductions | 4 tight buffers> -DKSUFFIX=_<ctx>
 // (+ the -m flag the context needs); the parts are separate TUs only to keep each translated C file small.
 // Every k_<op>_<f|d>_simd<sfx> kernel has a twin k_<op>_<f|d>_ref<sfx> that makes the identical call without a context.
 // Real code: array::evaluator_t<view, simd_base_t<tag>>::eval_unary / eval_binary (eval/simd/evaluator/ufunc.hpp),
@@ -75,9 +75,12 @@ KERNEL size_t K(k_##op##_##tn##_ref)(const T* in, size_t n PARAMS, T* out, size_
 #define UNARY0(op) UNARY_T(op,float,f,,) UNARY_T(op,double,d,,)
 #define UNARY1(op) UNARY_T(op,float,f,COMMA float p0,COMMA p0) UNARY_T(op,double,d,COMMA double p0,COMMA p0)
 #define UNARY2(op) UNARY_T(op,float,f,COMMA float p0 COMMA float p1,COMMA p0 COMMA p1) UNARY_T(op,double,d,COMMA double p0 COMMA double p1,COMMA p0 COMMA p1)
-UNARY0(relu) UNARY0(relu6) UNARY0(sqrt) UNARY0(ceil) UNARY0(floor) UNARY0(softsign) UNARY0(hardswish)
-UNARY1(leaky_relu) UNARY1(prelu) UNARY1(softshrink) UNARY1(hardshrink)
+UNARY0(relu) UNARY0(relu6) UNARY0(sqrt) UNARY0(ceil) UNARY0(floor) UNARY0(softsign)
+UNARY1(leaky_relu) UNARY1(prelu)
 UNARY2(hardtanh)
+#if C12_CTX != 6   // simde_avx512/ufunc.hpp uses simde_kxor_mask16/8 for these three, which the installed SIMDe does not provide (compile error)
+UNARY0(hardswish) UNARY1(softshrink) UNARY1(hardshrink)
+#endif
 
 // ---- binary element-wise on same-shape 1-d operands: eval_binary SAME_SHAPE
 // (the result type is requested as a hybrid array through the public output-type argument: the default result of a broadcasting
@@ -143,4 +146,16 @@ KERNEL size_t K(k_reduceall_##op##_nk_##tn##_ref)(const size_t* xs, const T* x, 
   *out = na::op.reduce(a,nm::None,nm::None,nm::None,nm::False); return 1; }
 #define REDUCE(op, T, tn) REDUCE2_T(op,T,tn,kd,nm::True,v2_t<T>) REDUCE2_T(op,T,tn,nk,nm::False,v1_t<T>) REDUCE3_T(op,T,tn,kd,nm::True,v3_t<T>) REDUCE3_T(op,T,tn,nk,nm::False,v2_t<T>) REDUCEALL_T(op,T,tn)
 REDUCE(add,float,f) REDUCE(multiply,float,f) REDUCE(add,double,d)
+#endif
+#if C12_PART == 4
+// ---- tight buffers: operands are std::array<T,N> objects of EXACTLY N cells (N a compile-time constant, one kernel per listed N), the result
+//      is whatever the evaluator returns for them, so that CBMC's object bounds decide that no packed load/store or tail access touches a cell
+//      outside [0,N) (the hybrid buffers above have spare capacity behind the logical size, which hides a small over-read)
+template <size_t N, typename T> static inline nmtools_array<T,N> mk_fix(const T* p){ nmtools_array<T,N> a{}; fill_n(&a[0], p, N); return a; }
+#define TIGHT(N) \
+KERNEL size_t K(k_tight_relu_##N##_f_simd)(const float* in, float* out, size_t* oshape, size_t* odim){ auto a = mk_fix<N>(in); return emit_maybe(na::relu(a,CTX), out, oshape, odim); } \
+KERNEL size_t K(k_tight_relu_##N##_f_ref)(const float* in, float* out, size_t* oshape, size_t* odim){ auto a = mk_fix<N>(in); return emit_maybe(na::relu(a), out, oshape, odim); } \
+KERNEL size_t K(k_tight_add_##N##_f_simd)(const float* x, const float* y, float* out, size_t* oshape, size_t* odim){ auto a = mk_fix<N>(x); auto b = mk_fix<N>(y); return emit_maybe(na::add(a,b,CTX), out, oshape, odim); } \
+KERNEL size_t K(k_tight_add_##N##_f_ref)(const float* x, const float* y, float* out, size_t* oshape, size_t* odim){ auto a = mk_fix<N>(x); auto b = mk_fix<N>(y); return emit_maybe(na::add(a,b), out, oshape, odim); }
+TIGHT(3) TIGHT(5) TIGHT(7) TIGHT(9) TIGHT(11) TIGHT(17) TIGHT(19) TIGHT(35)
 #endif
